@@ -30,7 +30,7 @@ BOUNDS = {
 }
 ASSUMPTIONS = ["A-FP (Real mode): floats are exact reals", "FP mode: z3 Float64 semantics = IEEE-754 binary64 comparisons; numpy.isnan shimmed to fpIsNaN",
                "A-NP: numpy arrays as dtype=object arrays of proxies", "NaN/inf THROUGH a conversion expression is outside the claim",
-               "tuple-of-tuples Arrays are checked in Real mode only (their NaN policy is not specified by the property)"]
+               "tuple-of-tuples Arrays: every amount must satisfy the limits, so a NaN amount anywhere is rejected when a limit exists (only FLAT arrays skip NaN)"]
 CHUNK = 12
 _CTR = [0]
 _SDB = []
@@ -48,8 +48,8 @@ def items(tier, seed):
                     for dflt in (("given", "auto") if cls == "Scalar" and u == du or lim[0] != "both" and cls == "Scalar" else ("given",)):
                         out.append({"lim": list(lim), "qt": qt, "du": du, "u": u, "cls": cls, "n": n, "dflt": dflt, "fp": False})
     for lim in LIMS:
-        for cls in ("Scalar", "Array.list", "Array.tuple", "Array.numpy", "FixedArray.list"):
-            ns = [1] if cls == "Scalar" else ([2, 3] if cls.startswith("Fixed") else list(range(0, nmax + 1)))
+        for cls in ("Scalar", "Array.list", "Array.tuple", "Array.numpy", "FixedArray.list", "Array.tuples"):
+            ns = [1] if cls == "Scalar" else ([2, 3] if cls.startswith("Fixed") or cls == "Array.tuples" else list(range(0, nmax + 1)))
             for n in ns:
                 out.append({"lim": list(lim), "qt": "length", "du": "m", "u": "m", "cls": cls, "n": n, "dflt": "given", "fp": True})
     hist = []
@@ -57,6 +57,8 @@ def items(tier, seed):
         for u in ("m", "cm"):
             for cls in ("Scalar", "Array.list", "FractionScalar"):
                 hist.append({"k": "redefine", "lim": list(lim), "qt": "length", "du": "m", "u": u, "cls": cls, "n": 2, "dflt": "given", "fp": False})
+        for leg in (["volume flow rate", ["1000ft3/d", "M(ft3)/d", "Mm3/d"]], ["force per velocity", ["Ns/m"]], ["molecular weight", ["lb/lbmole", "g/mol"]]):
+            hist.append({"k": "legacy_valid_units", "lim": list(lim), "qt": leg[0], "du": leg[1][0], "u": leg[1][0], "leg": leg[1], "cls": "Scalar", "n": 1, "dflt": "auto" if not (lim[1] or lim[2]) else "given", "fp": False})
         hist.append({"k": "from_category", "lim": list(lim), "qt": "length", "du": "m", "u": "m", "cls": "Scalar", "n": 1, "dflt": "given", "fp": False})
         for cls in ("Array.list", "Array.numpy", "FixedArray.list"):
             hist.append({"k": "copy_category", "lim": list(lim), "qt": "length", "du": "m", "u": "cm", "cls": cls, "n": 2, "dflt": "given", "fp": False})
@@ -142,6 +144,20 @@ def run_history(cfg, V):
     xs = [V["x%d" % i] for i in range(cfg["n"])]
     k = cfg["k"]
     with pushed(db):
+        if k == "legacy_valid_units":
+            # valid units given in legacy spellings and no default unit: the first valid unit becomes the default
+            try:
+                info = db.AddCategory("c12leg", cfg["qt"], valid_units=list(cfg["leg"]), **kw)
+            except (ValueError, AssertionError, RuntimeError):
+                return {"skip": True}
+            s = Scalar("c12leg")
+            try:
+                db.CheckCategoryUnit("c12leg", info.default_unit)
+                unit_ok = True
+            except Exception as e:  # noqa
+                unit_ok = type(e).__name__
+            return {"default_unit": info.default_unit, "valid_units": list(db.GetValidUnits("c12leg")), "registered": info.default_unit in db.GetUnits(cfg["qt"]), "unit_ok": unit_ok,
+                    "scalar": (s.GetUnit(), s.IsValid()), "default_value": info.default_value, "sv": s.GetValue()}
         if k == "redefine":
             # objects created through the unit alone BEFORE the category is redefined with limits
             for un in ("m", "cm", "km"):
@@ -227,10 +243,20 @@ def run(cfg, V):
 
         before = snap_value(o)
         cont = o.GetAbstractValue()
+        rev = None
+        if cls.startswith(("Array", "Fixed")) and len(xs) >= 2:
+            # the same amounts in the opposite order (rows and the elements inside a row)
+            if cls == "Array.tuples":
+                rc = [tuple(reversed(t)) for t in reversed(cont)]
+            elif cls == "Array.numpy":
+                rc = SymArray(list(reversed(xs))) if core.is_sym(xs[0]) else __import__("numpy").array(list(reversed(xs)), dtype=float)
+            else:
+                rc = type(cont)(reversed(list(cont)))
+            rev = type(o).CreateWithQuantity(o.GetQuantity(), rc).IsValid() if not cls.startswith("Fixed") else FixedArray(len(xs), rc, u, cat).IsValid()
         isvalid = o.IsValid()
         v1 = _verdict(o.CheckValidity)
         v2 = _verdict(o.CheckValidity)
-        return reg | {"v1": v1, "v2": v2, "isvalid": isvalid, "isvalid2": o.IsValid(), "untouched": snap_value(o) == before and o.GetAbstractValue() is cont}
+        return reg | {"v1": v1, "v2": v2, "isvalid": isvalid, "isvalid2": o.IsValid(), "rev": rev, "untouched": snap_value(o) == before and o.GetAbstractValue() is cont}
 
 
 def _cmpz(fp):
@@ -301,6 +327,8 @@ def props(cfg, T, obs):
     want = z3.And(*elem_ok) if elem_ok else z3.BoolVal(True)
     v1, v2 = obs["v1"], obs["v2"]
     P.append(("accepted exactly when every amount, in the default unit, satisfies the limits", z3.BoolVal(v1["ok"]) == want))
+    if obs.get("rev") is not None:
+        P.append(("the verdict does not depend on the order of the elements (rows and elements inside a row reversed)", obs["rev"] == v1["ok"]))
     if "untouched" in obs:
         P.append(("validation leaves the object and its container (contents and order) as they were", bool(obs["untouched"])))
     P.append(("IsValid agrees with CheckValidity and repeated calls give the same verdict",
@@ -337,6 +365,11 @@ def props_history(cfg, T, obs, C):
         cs = ([C[opmin](v, lo)] if has_min else []) + ([C[opmax](v, hi)] if has_max else [])
         return z3.And(*cs) if cs else z3.BoolVal(True)
 
+    k = cfg["k"]
+    if k == "legacy_valid_units":
+        return [("a category registered with legacy-spelled valid units gets a default unit that is registered, is one of its own valid units and is accepted for the category",
+                 bool(obs["registered"]) and obs["default_unit"] in obs["valid_units"] and obs["unit_ok"] is True),
+                ("Scalar(category) carries that unit and the default value and is valid", z3.And(z3.BoolVal(obs["scalar"] == (obs["default_unit"], True)), term(obs["sv"]) == term(obs["default_value"])))]
     xs = [T["x%d" % i] for i in range(cfg["n"])]
     if cfg["cls"] == "Scalar" or cfg["cls"] == "FractionScalar":
         xs = xs[:1]
